@@ -76,6 +76,158 @@ def _slice_file():
     return path
 
 
+# ------------------------------------------------------------------------------------------------
+# range helpers: pa_limit (two while loops), fix_shape (attribute swaps under an if), the RA wrap and the
+# int_flux expression of result_to_components, WCSHelper.get_beamarea_pix.
+#
+# The translator handles straight-line arithmetic over plain names.  `_slice_ranges` cuts the arithmetic out of
+# the *current* source with `ast` (no evaluation, no rewriting of the arithmetic):
+#   * `while pa <cmp> <bound>: pa <op>= <step>`  ->  `<which>_bound = <bound>` and `<which>_next = pa <op> <step>`;
+#     the comparison operator is recorded as a literal (1 = closed: <= / >=, 0 = strict: < / >) — the loop itself
+#     is re-assembled in Lean (Model/C03Gen.lean: fuel-indexed recursion on these pieces);
+#   * `if source.a < source.b: <swaps>; source.pa += 90`  ->  the swapped branch over plain names a, b, pa, err_a, err_b;
+#   * `if source.ra < 0: source.ra += 360`  (first occurrence in result_to_components)  ->  wrap_bound, wrap_next;
+#   * `source.int_flux = …; source.int_flux /= <…>.get_beamarea_pix(…)`  ->  int_flux over peak_flux, sx, sy, CC2FHWM,
+#     `pi_` (np.pi, a parameter: `R.pi` is substituted in the theorems) and beam_area_pix (the call's result);
+#   * `return a * b * np.pi` of get_beamarea_pix  ->  beam_area over a, b, pi_.
+# Anything of another shape makes the slice empty for that piece -> UNTRANSLATABLE -> hand fallback + correspondence.
+
+def _fn(tree, name):
+    return [n for n in ast.walk(tree) if isinstance(n, ast.FunctionDef) and n.name == name][0]
+
+
+class _Attr2Name(ast.NodeTransformer):
+    """source.x -> x ; np.pi / math.pi -> pi_ ; <anything>.get_beamarea_pix(...) -> beam_area_pix"""
+
+    def visit_Call(self, node):
+        self.generic_visit(node)
+        if isinstance(node.func, ast.Attribute) and node.func.attr == 'get_beamarea_pix':
+            return ast.copy_location(ast.Name(id='beam_area_pix', ctx=ast.Load()), node)
+        return node
+
+    def visit_Attribute(self, node):
+        self.generic_visit(node)
+        if isinstance(node.value, ast.Name) and node.value.id == 'source':
+            return ast.copy_location(ast.Name(id=node.attr, ctx=node.ctx), node)
+        if isinstance(node.value, ast.Name) and node.value.id in ('np', 'numpy', 'math') and node.attr == 'pi':
+            return ast.copy_location(ast.Name(id='pi_', ctx=ast.Load()), node)
+        return node
+
+
+def _assign(name, value):
+    return ast.Assign(targets=[ast.Name(id=name, ctx=ast.Store())], value=value)
+
+
+def _mkfn(name, args, body):
+    return ast.FunctionDef(name=name, args=ast.arguments(posonlyargs=[], args=[ast.arg(arg=a) for a in args], kwonlyargs=[],
+                                                         kw_defaults=[], defaults=[]),
+                           body=body + [ast.Return(value=ast.Constant(value=None))], decorator_list=[], type_params=[])
+
+
+def _loop_piece(w, which, var):
+    """`while var <cmp> bound: var <op>= step` -> ([bound assign, next assign], closed literal)"""
+    t = w.test
+    assert isinstance(t, ast.Compare) and len(t.ops) == 1 and isinstance(t.left, ast.Name) and t.left.id == var
+    want = (ast.LtE, ast.Lt) if which == 'up' else (ast.GtE, ast.Gt)
+    assert isinstance(t.ops[0], want)
+    closed = 1 if isinstance(t.ops[0], (ast.LtE, ast.GtE)) else 0
+    assert len(w.body) == 1 and isinstance(w.body[0], ast.AugAssign) and w.body[0].target.id == var and not w.orelse
+    nxt = ast.BinOp(left=ast.Name(id=var, ctx=ast.Load()), op=w.body[0].op, right=w.body[0].value)
+    return [_assign(which + '_bound', t.comparators[0]), _assign(which + '_next', nxt)], closed
+
+
+def _slice_ranges(repo):
+    """python source of the slice functions; pieces that cannot be cut are simply absent"""
+    fns, lits = [], {}
+    try:
+        tree = ast.parse(open(os.path.join(repo, _SF)).read())
+    except Exception:  # noqa: BLE001
+        return ''
+    try:    # pa_limit
+        f = _fn(tree, 'pa_limit')
+        var = f.args.args[0].arg
+        loops = [n for n in f.body if isinstance(n, ast.While)]
+        assert len(loops) == 2 and not any(isinstance(n, (ast.If, ast.For)) for n in f.body)
+        ret = [n for n in f.body if isinstance(n, ast.Return)]
+        assert len(ret) == 1 and isinstance(ret[0].value, ast.Name) and ret[0].value.id == var
+        b1, c1 = _loop_piece(loops[0], 'up', var)
+        b2, c2 = _loop_piece(loops[1], 'down', var)
+        body = [_RenameVar(var, 'pa').visit(st) for st in b1 + b2]
+        fns.append(_mkfn('pa_limit_slice', ['pa'], body))
+        lits['pa_up_closed'], lits['pa_down_closed'] = c1, c2
+    except Exception:  # noqa: BLE001
+        pass
+    try:    # fix_shape
+        f = _fn(tree, 'fix_shape')
+        ifs = [n for n in f.body if isinstance(n, ast.If)]
+        assert len(ifs) == 1 and not ifs[0].orelse
+        t = _Attr2Name().visit(ifs[0].test)
+        assert isinstance(t, ast.Compare) and len(t.ops) == 1 and isinstance(t.ops[0], (ast.Lt, ast.LtE))
+        assert t.left.id == 'a' and t.comparators[0].id == 'b'
+        lits['fix_closed'] = 1 if isinstance(t.ops[0], ast.LtE) else 0
+        body = [_Attr2Name().visit(st) for st in ifs[0].body]
+        assert all(isinstance(st, (ast.Assign, ast.AugAssign)) for st in body)
+        fns.append(_mkfn('fix_shape_slice', ['a', 'b', 'pa', 'err_a', 'err_b'], body))
+    except Exception:  # noqa: BLE001
+        pass
+    try:    # RA wrap and int_flux in result_to_components (component loop = the first for loop)
+        f = _fn(tree, 'result_to_components')
+        loop = [n for n in f.body if isinstance(n, ast.For)][0]
+        wr = [n for n in ast.walk(loop) if isinstance(n, ast.If) and ast.unparse(n.test).startswith('source.ra ')]
+        t = wr[0].test
+        assert isinstance(t.ops[0], (ast.Lt, ast.LtE)) and len(wr[0].body) == 1 and isinstance(wr[0].body[0], ast.AugAssign)
+        assert ast.unparse(wr[0].body[0].target) == 'source.ra' and not wr[0].orelse
+        lits['wrap_closed'] = 1 if isinstance(t.ops[0], ast.LtE) else 0
+        nxt = ast.BinOp(left=ast.Name(id='ra', ctx=ast.Load()), op=wr[0].body[0].op, right=wr[0].body[0].value)
+        fns.append(_mkfn('ra_wrap_slice', ['ra'], [_assign('wrap_bound', t.comparators[0]), _assign('wrap_next', nxt)]))
+    except Exception:  # noqa: BLE001
+        pass
+    try:
+        f = _fn(tree, 'result_to_components')
+        loop = [n for n in f.body if isinstance(n, ast.For)][0]
+        sts = [n for n in ast.walk(loop) if isinstance(n, (ast.Assign, ast.AugAssign))
+               and ast.unparse(n.targets[0] if isinstance(n, ast.Assign) else n.target) == 'source.int_flux']
+        assert sts
+        fns.append(_mkfn('int_flux_slice', ['peak_flux', 'sx', 'sy', 'CC2FHWM', 'pi_', 'beam_area_pix'],
+                         [_Attr2Name().visit(st) for st in sorted(sts, key=lambda n: n.lineno)]))
+    except Exception:  # noqa: BLE001
+        pass
+    try:
+        wtree = ast.parse(open(os.path.join(repo, 'AegeanTools/wcs_helpers.py')).read())
+        f = _fn(wtree, 'get_beamarea_pix')
+        ret = [n for n in f.body if isinstance(n, ast.Return)][0]
+        fns.append(_mkfn('beam_area_slice', ['a', 'b', 'pi_'], [_assign('beam_area', _Attr2Name().visit(ret.value))]))
+    except Exception:  # noqa: BLE001
+        pass
+    if lits:
+        fns.append(_mkfn('cmp_slice', [], [_assign(k, ast.Constant(value=v)) for k, v in sorted(lits.items())]))
+    mod = ast.Module(body=fns, type_ignores=[])
+    ast.fix_missing_locations(mod)
+    return ast.unparse(mod) + "\n"
+
+
+def _ranges_file():
+    fd, path = tempfile.mkstemp(prefix='verif-C03-ranges-', suffix='.py')
+    with os.fdopen(fd, 'w') as f:
+        f.write("# sliced from source_finder.py / wcs_helpers.py by translator/targets/C03.py\n" + _slice_ranges(_REPO))
+    atexit.register(lambda p=path: os.path.exists(p) and os.unlink(p))
+    return path
+
+
+_RF = _ranges_file()
+_M = 'Aegean.Model.C03'
+
+
+def _real(func, params, outs, hands):
+    sig = ' '.join(f'({p} : α)' for p in params)
+    return dict(file=_RF, func=func, mode='real', params={p: 'A' for p in params}, subst={},
+                outputs=outs, all_params=params,
+                fallback={ln: f'def {ln} {{α : Type}} [R α] {sig} : α := {_M}.{hands[ln]}' for _, ln in outs})
+
+
+_FS = ['a', 'b', 'pa', 'err_a', 'err_b']
+_IF = ['peak_flux', 'sx', 'sy', 'CC2FHWM', 'pi_', 'beam_area_pix']
+
 TARGETS = [
     dict(file=_SF, func='priorized_fit_islands', mode='int', params={}, subst={},
          outputs=[('group_size', 'groupSize')],
@@ -87,4 +239,20 @@ TARGETS = [
          outputs=[('istart__', 'istart')],
          fallback={'istart': 'def istart (i : Nat) (group_size : Nat) : Nat := Aegean.Model.C03.istartHand i group_size'},
          all_params=['i', 'group_size']),
+    _real('pa_limit_slice', ['pa'], [('up_bound', 'paUpBound'), ('up_next', 'paUpNext'), ('down_bound', 'paDownBound'),
+                                     ('down_next', 'paDownNext')],
+          dict(paUpBound='paUpBoundHand pa', paUpNext='paUpNextHand pa', paDownBound='paDownBoundHand pa',
+               paDownNext='paDownNextHand pa')),
+    _real('fix_shape_slice', _FS, [('a', 'fixA'), ('b', 'fixB'), ('pa', 'fixPa'), ('err_a', 'fixErrA'), ('err_b', 'fixErrB')],
+          dict(fixA='fixAHand a b pa err_a err_b', fixB='fixBHand a b pa err_a err_b', fixPa='fixPaHand a b pa err_a err_b',
+               fixErrA='fixErrAHand a b pa err_a err_b', fixErrB='fixErrBHand a b pa err_a err_b')),
+    _real('ra_wrap_slice', ['ra'], [('wrap_bound', 'raWrapBound'), ('wrap_next', 'raWrapNext')],
+          dict(raWrapBound='raWrapBoundHand ra', raWrapNext='raWrapNextHand ra')),
+    _real('int_flux_slice', _IF, [('int_flux', 'intFluxG')], dict(intFluxG='intFluxGHand peak_flux sx sy CC2FHWM pi_ beam_area_pix')),
+    _real('beam_area_slice', ['a', 'b', 'pi_'], [('beam_area', 'beamAreaG')], dict(beamAreaG='beamAreaGHand a b pi_')),
+] + [
+    dict(file=_RF, func='cmp_slice', mode='int', params={}, subst={}, outputs=[(var, ln)],
+         fallback={ln: f'def {ln} : Nat := {_M}.{ln}Hand'}, all_params=[])
+    for var, ln in (('pa_up_closed', 'paUpClosed'), ('pa_down_closed', 'paDownClosed'), ('fix_closed', 'fixClosed'),
+                    ('wrap_closed', 'wrapClosed'))
 ]
